@@ -13,35 +13,50 @@ pub assume_specification [usize::overflowing_sub] (a: usize, b: usize) -> (r: (u
 // `ptr_within(p, seq, off)`: p points at element `off` of an allocation whose contents, viewed as
 // a sequence of T, are `seq` (one-past-the-end allowed).  Functional specs would be inconsistent
 // (the same address is element k of s and element 0 of s[k..]), hence a relation.
+// Zero-sized T: pointer arithmetic is a no-op and every (aligned, non-null) pointer is valid for
+// any number of elements, so the preconditions are vacuous there and only the length is specified.
 pub uninterp spec fn ptr_within<T>(p: *const T, seq: Seq<T>, off: int) -> bool;
+
+pub open spec fn is_zst<T>() -> bool { vstd::layout::size_of::<T>() == 0 }
 
 pub assume_specification<T> [<[T]>::as_ptr] (s: &[T]) -> (p: *const T)
     ensures ptr_within(p, s@, 0);
 
 // safety section of `ptr::offset`: the result must stay inside (or one past) the same allocation
 pub assume_specification<T> [<*const T>::offset] (p: *const T, n: isize) -> (r: *const T)
-    requires exists|seq: Seq<T>, off: int| #[trigger] ptr_within(p, seq, off) && 0 <= off + n <= seq.len(),
-    ensures forall|seq: Seq<T>, off: int| #[trigger] ptr_within(p, seq, off) && 0 <= off + n <= seq.len()
+    requires is_zst::<T>() || exists|seq: Seq<T>, off: int| #[trigger] ptr_within(p, seq, off) && 0 <= off + n <= seq.len(),
+    ensures
+        !is_zst::<T>() ==> forall|seq: Seq<T>, off: int| #[trigger] ptr_within(p, seq, off) && 0 <= off + n <= seq.len()
                 ==> ptr_within(r, seq, off + n);
 
 // safety section of `slice::from_raw_parts`: `len` consecutive initialised T inside one allocation
 pub assume_specification<'a, T> [core::slice::from_raw_parts] (p: *const T, len: usize) -> (r: &'a [T])
-    requires exists|seq: Seq<T>, off: int| #[trigger] ptr_within(p, seq, off) && 0 <= off && off + len <= seq.len(),
-    ensures forall|seq: Seq<T>, off: int| #[trigger] ptr_within(p, seq, off) && 0 <= off && off + len <= seq.len()
+    requires is_zst::<T>() || exists|seq: Seq<T>, off: int| #[trigger] ptr_within(p, seq, off) && 0 <= off && off + len <= seq.len(),
+    ensures
+        r@.len() == len,
+        !is_zst::<T>() ==> forall|seq: Seq<T>, off: int| #[trigger] ptr_within(p, seq, off) && 0 <= off && off + len <= seq.len()
                 ==> r@ == seq.subrange(off, off + len);
 
-// ASSUMED: type invariant of slices: `len * size_of::<T>() <= isize::MAX`, used as `len <= isize::MAX`
-// (true for every non-zero-sized T; slices of zero-sized elements longer than isize::MAX are outside the proofs)
+// ASSUMED: type invariant of slices: `len * size_of::<T>() <= isize::MAX`; for a non-zero-sized T this gives
+// `len <= isize::MAX`.  Slices of zero-sized elements can be up to usize::MAX long.
 pub mod k2v_axioms {
     use vstd::prelude::*;
     #[verifier::external_body]
     pub broadcast proof fn axiom_slice_len<T>(s: &[T])
-        ensures #[trigger] s@.len() <= isize::MAX,
+        ensures vstd::layout::size_of::<T>() != 0 ==> #[trigger] s@.len() <= isize::MAX,
     {
     }
 }
 
 broadcast use k2v_axioms::axiom_slice_len;
+
+// ASSUMED: a zero-sized type has at most one value, so two sequences of it of equal length are equal
+#[verifier::external_body]
+pub proof fn axiom_zst_seq_eq<T>(a: Seq<T>, b: Seq<T>)
+    requires is_zst::<T>(), a.len() == b.len(),
+    ensures a == b,
+{
+}
 
 // ---- shared specification vocabulary ------------------------------------------------------------
 pub open spec fn sub<T>(s: Seq<T>, a: int, b: int) -> Seq<T> { s.subrange(a, b) }
